@@ -69,7 +69,35 @@ func init() {
 				ord := 0
 				eachInstr(f, func(ins ssa.Instruction) {
 					b, ok := ins.(*ssa.BinOp)
-					if !ok || (b.Op != token.ADD && b.Op != token.MUL) || !narrowInt(b.Type()) {
+					if !ok || !narrowInt(b.Type()) {
+						return
+					}
+					if b.Op == token.SUB {
+						// unsigned narrow subtraction feeding a comparison: wraps when the subtrahend is larger
+						if !isUnsigned(b.Type()) {
+							return
+						}
+						if _, yc := b.Y.(*ssa.Const); yc {
+							return
+						}
+						examined++
+						fs := canonFacts(b.Block())
+						x, y := accessPath(b.X), accessPath(b.Y)
+						if fs[y+" <= "+x] || fs[y+" < "+x] {
+							return
+						}
+						for _, ref := range refsOf(b) {
+							cmp, ok := ref.(*ssa.BinOp)
+							if !ok || !isComparison(cmp.Op) {
+								continue
+							}
+							n++
+							ord++
+							c.Violate(fmt.Sprintf("%s / narrow-sub#%d", fnKey(f), ord), b.Pos(), "%s is an unsigned %s subtraction without a dominating %s <= %s guard and feeds the comparison %s: when the subtrahend exceeds the minuend (e.g. in-flight already above a lowered threshold, or the tolerated concurrent overshoot) it wraps to a huge value and the limit test admits everything", accessPath(b), b.Type(), y, x, canonCond(cmp, true))
+						}
+						return
+					}
+					if b.Op != token.ADD && b.Op != token.MUL {
 						return
 					}
 					_, xc := b.X.(*ssa.Const)
